@@ -580,8 +580,165 @@ def _is_inf(P, v):
 
 
 def _count_form(I, idx, key_tab, n_layers):
-    """(op, x) if idx == #{j in 1..n-1 : key_tab[j] op x}, spelled as a count of comparisons against key_tab[1:] or
-    as searchsorted on the (monotone) table; None otherwise"""
+    """(op, x) if idx == #{j in 1..n-1 : key_tab[j] op x}; ("!reason", x) if idx is a recognised count that is NOT that
+    function; None if the form is not recognised"""
+    r = _count_form_patterns(I, idx, key_tab, n_layers)
+    if r is None and n_layers is not None:
+        r = _searchsorted_general(I, idx, key_tab, n_layers)
+    return r
+
+
+def _searchsorted_general(I, idx, key_tab, n_layers):
+    """idx = a * searchsorted(+-table[slice], +-x, side) + b, possibly floored at 0, read as a count of layer bases:
+    searchsorted on an ascending sequence A counts #{k : A[k] < v} (left) or #{k : A[k] <= v} (right); negating table
+    and value together turns the comparison around; a slice restricts which layer bases are counted."""
+    from ..facets.poly import PolyFacet
+    g = I.g
+
+    def strip(n):
+        for _ in range(6):
+            if n.op == "MCall" and n.attr[0] in ("astype", "copy") and n.args:
+                n = n.args[0]
+            elif is_ext_call(n, "numpy.asarray", "numpy.intp", "numpy.int64") and len(n.args) >= 2:
+                n = n.args[1]
+            else:
+                break
+        return n
+    n = strip(idx)
+    if is_ext_call(n, "numpy.where") and len(n.args) == 4 and is_ext_call(n.args[1], "numpy.isnan") and \
+            n.args[2].op == "Const" and n.args[2].attr == 0:
+        n = strip(n.args[3])
+    floored = False
+    if is_ext_call(n, "numpy.maximum", "numpy.fmax", "builtins.max") and len(n.args) == 3 and \
+            any(a.op == "Const" and a.attr == 0 for a in n.args[1:]):
+        n = strip(next(a for a in n.args[1:] if not (a.op == "Const" and a.attr == 0)))
+        floored = True
+    elif is_ext_call(n, "numpy.clip") and len(n.args) >= 3 and n.args[2].op == "Const" and n.args[2].attr == 0:
+        n = strip(n.args[1])
+        floored = True
+    cands = [y for y in walk([n]) if is_ext_call(y, "numpy.searchsorted") or
+             (y.op == "MCall" and y.attr[0] == "searchsorted")]
+    if len(cands) != 1:
+        return None
+    ss = cands[0]
+    if ss.op == "Call":
+        pos, kws = call_args(ss)
+    else:
+        pos = list(ss.args[:1 + ss.attr[1]])
+        kws = dict(zip(ss.attr[2], ss.args[1 + ss.attr[1]:]))
+    if len(pos) < 2 or "sorter" in kws:
+        return None
+    side = kws.get("side") or (pos[2] if len(pos) > 2 else None)
+    side = "left" if side is None else (side.attr if side.op == "Const" else None)
+    if side not in ("left", "right"):
+        return None
+
+    def signed(y):
+        sgn = 1
+        for _ in range(4):
+            if y.op == "UnaryOp" and y.attr == "USub":
+                y, sgn = y.args[0], -sgn
+            elif is_ext_call(y, "numpy.negative") and len(y.args) == 2:
+                y, sgn = y.args[1], -sgn
+            else:
+                break
+        return sgn, y
+    st_, tab = signed(pos[0])
+    sx_, xq = signed(pos[1])
+    # which layer bases: table[slice]
+    J = list(range(n_layers))
+    t0 = tab
+    for _ in range(3):
+        if is_ext_call(t0, "numpy.flip", "numpy.flipud") and len(t0.args) == 2:
+            t0 = t0.args[1]
+            J = J[::-1]
+        elif t0.op == "Subscript" and t0.args[1].op == "Slice" and all(
+                a.op == "Const" and (a.attr is None or type(a.attr) is int) for a in t0.args[1].args):
+            a_, b_, c_ = (a.attr for a in t0.args[1].args)
+            J = J[slice(a_, b_, c_)]
+            t0 = t0.args[0]
+        else:
+            break
+    if t0 is not key_tab or st_ != sx_ or not J:
+        return None
+    # the sequence handed to searchsorted has to be ascending: heights ascend with j, pressures descend
+    seq_ascending = (J == sorted(J)) == (st_ > 0)
+    asc_table = _table_ascending(key_tab)
+    if asc_table is None or seq_ascending != asc_table:
+        return ("!searchsorted on a sequence that is not ascending (the table" + ("" if st_ > 0 else " negated") +
+                (" reversed" if J != sorted(J) else "") + ")", xq)
+    # count over J of  A[k] (<|<=) v  in terms of the table entries
+    op = {("left", 1): "<", ("right", 1): "<=", ("left", -1): ">", ("right", -1): ">="}[(side, st_)]
+    Pq = PolyFacet(I, opaque_ids={ss.id})
+    sv = Pq.of(ss)
+    try:
+        val = Pq.of(n)
+        a = None
+        for a_try in (1, -1):
+            rest = Pq.add(val, Pq.mul(Pq.const(a_try), sv), -1)
+            if rest is not None and rest.rat.is_const() is not None:
+                a, b = a_try, int(rest.rat.is_const())
+                break
+    except Exception:       # noqa: BLE001
+        return None
+    if a is None:
+        return None
+    if a == -1:
+        # b - #{j in J : T[j] op x}  ==  (b - |J|) + #{j in J : not (T[j] op x)}
+        op = {"<": ">=", "<=": ">", ">": "<=", ">=": "<"}[op]
+        b = b - len(J)
+    Jset = set(J)
+    want = set(range(1, n_layers))
+    if Jset == want and b == 0:
+        return (op, xq)
+    if Jset == set(range(n_layers)) and b == -1:
+        if floored:
+            return (op, xq)
+        return ("!a count over the whole table, reduced by one but without a floor at the ground layer (index -1, the "
+                "last layer, beyond the first base)", xq)
+    missing = sorted(want - Jset)
+    if missing and b == (-1 if 0 in Jset else 0):
+        return (f"!a count that leaves out layer base {missing} (the sentinel layer of zero pressure / infinite height is "
+                "never selected)" if missing == [n_layers - 1] else f"!a count that leaves out layer bases {missing}", xq)
+    return (f"!a count over layer bases {sorted(Jset)} shifted by {b}", xq)
+
+
+def _table_ascending(tab):
+    """True / False for a literal table that ascends / descends (read from its literal in constants.py), else None"""
+    sign = 1.0
+    for _ in range(3):
+        if tab.op == "BinOp" and tab.attr == "Mult":
+            a, b = tab.args
+            if a.op == "Const" and isinstance(a.attr, (int, float)):
+                sign *= 1.0 if a.attr > 0 else -1.0
+                tab = b
+                continue
+            if b.op == "Const" and isinstance(b.attr, (int, float)):
+                sign *= 1.0 if b.attr > 0 else -1.0
+                tab = a
+                continue
+        break
+    if not (is_ext_call(tab, "numpy.array", "numpy.asarray") and len(tab.args) >= 2 and tab.args[1].op in ("List", "Tuple")):
+        return None
+    fl = []
+    for e in tab.args[1].args:
+        if e.op == "Const" and isinstance(e.attr, (int, float)):
+            fl.append(float(e.attr) * sign)
+        elif e.op == "Ext" and e.attr in ("numpy.inf", "math.inf"):
+            fl.append(float("inf") * sign)
+        else:
+            return None
+    if len(fl) < 2:
+        return None
+    if all(x < y for x, y in zip(fl, fl[1:])):
+        return True
+    if all(x > y for x, y in zip(fl, fl[1:])):
+        return False
+    return None
+
+
+def _count_form_patterns(I, idx, key_tab, n_layers):
+    """the spellings recognised by shape (see _count_form)"""
     from ..interp_expr import is_basic_index
 
     def strip(n):
